@@ -76,6 +76,33 @@ type Case struct {
 	Req     []string `json:"req,omitempty"` // update: fields of the runtime's requested resources
 	Chain   []Script `json:"chain"`
 	Par     int      `json:"par,omitempty"` // number of identical requests in flight (different ids)
+	// Pal selects the value palette the case is rendered with (render.go: plain, big numbers,
+	// negative numbers, odd strings).
+	Pal int `json:"pal,omitempty"`
+	// Share (update requests): the request is followed by a second update request for another
+	// container whose requested-resources section is the SAME object the caller used for the
+	// first (a runtime applying one resources object to several containers). In the second
+	// request every update of the requested container keeps only its first field (see
+	// followUp), so anything the first request left behind in the caller's object shows.
+	Share bool `json:"share,omitempty"`
+}
+
+// followUp is the second request of a Share case.
+func followUp(c Case) Case {
+	d := c
+	d.Share = false
+	d.Chain = nil
+	for _, s := range c.Chain {
+		t := Script{Plugin: s.Plugin, Ops: s.Ops}
+		for _, u := range s.Updates {
+			if u.Target == "SELF" && len(u.Fields) > 1 {
+				u.Fields = append([]string{}, u.Fields[:1]...)
+			}
+			t.Updates = append(t.Updates, u)
+		}
+		d.Chain = append(d.Chain, t)
+	}
+	return d
 }
 
 var (
@@ -97,7 +124,9 @@ var (
 		"cpus", "mems", "pids", "blockio", "rdt"}
 	removableFams = []string{"ann", "env", "mount", "dev"}
 	keyedSetFams  = []string{"cdi", "rlimit", "huge", "unified"}
-	targets       = []string{"T1", "T2", "T3"}
+	// T0 is the target with an EMPTY container id: an update that names no container is an
+	// update of "the container with id ''", a third-party target like any other.
+	targets = []string{"T1", "T2", "T3", "T0"}
 )
 
 func keysOf(fam string) []string {
@@ -273,6 +302,9 @@ func GenCase(t *rapid.T, b Bias) Case {
 		Kind:    rapid.SampledFrom(b.Kinds).Draw(t, "kind"),
 		Par:     1,
 	}
+	if gen.Uniform(t, "palette", 10) < 6 {
+		c.Pal = gen.Uniform(t, "pal", numPals-1) + 1
+	}
 	full := rapid.IntRange(0, 99).Draw(t, "full") < b.Populated
 	if c.Kind == "create" {
 		c.Orig = genOrig(t, full)
@@ -287,6 +319,7 @@ func GenCase(t *rapid.T, b Bias) Case {
 			c.Req = nil
 			c.Orig.NilParts = rapid.Bool().Draw(t, "nilreq") // nil vs empty resources section
 		}
+		c.Share = gen.Uniform(t, "share", 4) == 0
 	}
 	// chain: a non-empty subset of the pool, in chain order
 	n := rapid.IntRange(1, poolSize).Draw(t, "nchain")
